@@ -1,6 +1,7 @@
 import Dnp3.Proofs.PanicClass
 import Dnp3.Proofs.NoPanicLink
 import Dnp3.Proofs.NoPanicOutstation
+import Dnp3.Proofs.NoPanicOutstationDb
 /-!
 # C01 — Bytes from the peer can never crash or wedge a master or an outstation
 
@@ -22,9 +23,12 @@ master role is the master engine's):
    that is not in the table and breaks the obligation.
 2. **No-panic / no-spin theorems** over the models (the models are total functions in which Rust
    panics are explicit values, so "no panic" is a statement and "no spin" is: no loop depends on
-   its fuel).  Proofs in `Proofs/NoPanicLink.lean` and `Proofs/NoPanicOutstation.lean`.
-3. The genuine exceptions on the unchanged tree, each with a witness: D1 (OPERATE echo larger than
-   the solicited buffer), D2 (`RangedBytesIterator` index overflow; repaired, `fix:` 320622f), D3 (event-counter underflow).
+   its fuel).  Proofs in `Proofs/NoPanicLink.lean`, `Proofs/NoPanicOutstation.lean` and
+   `Proofs/NoPanicOutstationDb.lean`.
+3. The genuine exception on the unchanged tree, with a witness: D1 (OPERATE echo larger than the
+   solicited buffer).  Repaired: D2 (`RangedBytesIterator` index overflow, `fix:` 320622f) and D3
+   (event-counter underflow: `EventBuffer::insert` now takes a discarded `Written` record out of
+   `written` too; `no_counter_underflow`, regression corpus).
 -/
 namespace Dnp3.Props.C01
 open Dnp3 Dnp3.App Dnp3.Proofs.NoPanicLink Dnp3.Proofs.NoPanicOutstation Dnp3.PanicInventory
@@ -174,11 +178,11 @@ def classified : List Entry := [
     .cannotFail "usize counter of control objects in ONE request fragment (<= rx buffer size / 4 objects)"⟩,
   -- outstation/database/details/event/buffer.rs
   ⟨17614748597320251592, "outstation/database/details/event/buffer.rs|Count::subtract|arith|value: self.value - other.value,|0",
-    .knownFinding "D3"⟩,
+    .modelled "Dnp3.Props.C01.no_counter_underflow"⟩,
   ⟨16230468875009351846, "outstation/database/details/event/buffer.rs|Count::increment|arith|self.value += 1;|0",
     .cannotFail "usize count of events held per class / type: bounded by the configured buffer sizes (u16 each)"⟩,
   ⟨13793723387269476396, "outstation/database/details/event/buffer.rs|Count::decrement|arith|self.value -= 1;|0",
-    .cannotFail "called only for a record that is being removed from the list, and total counts the records in the list (>= 1); NOT called on `written` (that omission is D3, which fails at Count::subtract)"⟩,
+    .cannotFail "called only for a record that is being removed from the list: on `total`, which counts the records in the list (>= 1), and (since the repair of D3, in EventBuffer::insert) on `written` only when the removed record is Written, which `written` counts (>= 1) (modelled: Dnp3.Props.Db.discard_decrements_no_underflow, Dnp3.Props.Db.counters_exact)"⟩,
   ⟨10237107360862332229, "outstation/database/details/event/buffer.rs|EventBuffer::insert|arith|self.next += 1;|0",
     .cannotFail "u64 event id: 2^64 insertions"⟩,
   ⟨16911464063772489611, "outstation/database/details/event/buffer.rs|EventBuffer::write_events|arith|count += 1;|0",
@@ -360,13 +364,14 @@ theorem all_sites_classified : ∀ s ∈ Gen.panicSites, s.key ∈ classified.ma
 /-- the inventory is not empty and is the one the generator counted -/
 theorem inventory_size : Gen.panicSites.length = Gen.panicSiteCount := by decide +kernel
 
-/-- the sites that CAN fail on peer input are exactly the four sites of D1 (three `unwrap`s of
-    `handle_operate`) and D3 (`Count::subtract`); the D2 site (`self.index += 1` of
-    `RangedBytesIterator`) is guarded since `fix:` 320622f and is now covered by `iter_no_panic` -/
-theorem known_finding_sites : knownFindingIds classified = ["D1", "D1", "D1", "D3"] := by decide +kernel
+/-- the sites that CAN fail on peer input are exactly the three sites of D1 (three `unwrap`s of
+    `handle_operate`); the D2 site (`self.index += 1` of `RangedBytesIterator`) is guarded since
+    `fix:` 320622f and is covered by `iter_no_panic`; the D3 site (`Count::subtract`) cannot underflow
+    since the repair of `EventBuffer::insert` and is covered by `no_counter_underflow` -/
+theorem known_finding_sites : knownFindingIds classified = ["D1", "D1", "D1"] := by decide +kernel
 
 /-- classification statistics (modelled, not peer-reachable, cannot fail, known finding) -/
-theorem classification_counts : countClass classified = (12, 30, 94, 4) := by decide +kernel
+theorem classification_counts : countClass classified = (13, 30, 94, 3) := by decide +kernel
 
 /-! ## 2. link layer: `Parser::parse`, `Reader::read_frame`
 
@@ -507,31 +512,80 @@ theorem iter_end_of_index_space :
 
 `Outstation.step` (Model/Outstation.lean) is total; a Rust panic is the explicit outcome
 `StepRes.panicked` (`die`: `mode := .dead`, output `OOut.panic`).  The database behind the `Db`
-interface is OPAQUE to these theorems (no `Db.*` function is unfolded in a universally quantified
-proof), so they survive the replacement of the database stub by the full model. -/
+interface is OPAQUE to the session-level theorem `outstation_step_panic_cause` (no `Db.*` function is
+unfolded in its proof); the one fact it needs about the database — `unwrittenClasses` never fails on a
+database reachable from a fresh one — is the database component's `counters_exact`
+(`Props/DbComponent.lean`), brought in by `no_counter_underflow`. -/
 
-/- FULL STATEMENT (false on the unchanged tree, D1 and D3):
-   `∀ env s i, OOut.panic ∉ (Outstation.step env s i).2`. -/
-/-- **`outstation_step_no_panic_partial`**: for EVERY state `s` and EVERY input `i`, a step of the
-    outstation session panics ONLY IF
+/- FULL STATEMENT (false on the unchanged tree, D1):
+   `∀ cfg evMax env s, Outstation.Reachable cfg evMax env s → ∀ i, OOut.panic ∉ (Outstation.step env s i).2`. -/
+
+/-- **`outstation_step_panic_cause`** (database opaque): for EVERY state `s` — reachable or not — and
+    EVERY input `i`, a step of the outstation session panics ONLY IF
     (a, D1) the fragment being handled — the one just received, or one retained in `s.pending` —
     parses as an OPERATE (function code 4) made of control headers only whose echo overflows the
     solicited buffer (`cfg.sol - 4` octets after the response header), or
-    (b, D3) `Db.unwrittenClasses` returns `none` (the checked counter subtraction) on a database
-    reachable from `s.db` by the database operations the session applies. -/
-theorem outstation_step_no_panic_partial (env : OEnv) (s : OState) (i : OInput)
+    (b) `Db.unwrittenClasses` returns `none` (the checked counter subtraction) on a database
+    reachable from `s.db` by the database operations the session applies (`CounterUnderflow`; the
+    former D3 — excluded by `no_counter_underflow` whenever `s.db` has exact counters). -/
+theorem outstation_step_panic_cause (env : OEnv) (s : OState) (i : OInput)
     (hp : OOut.panic ∈ (Outstation.step env s i).2) :
     (∃ data, ((∃ src dst, i = .rx src dst data) ∨ (∃ f, s.pending = some f ∧ f.data = data)) ∧
         OperateEchoOverflows s.cfg.sol data)
       ∨ CounterUnderflow s.db :=
-  Proofs.NoPanicOutstation.outstation_step_no_panic_partial env s i hp
+  Proofs.NoPanicOutstation.outstation_step_panic_cause env s i hp
 
-/-- the hypothesis is satisfiable, and this is the D1 counterexample to the full statement: tx buffer
-    249, OPERATE of 62 x g41v2 with 16-bit indices (317 octets) — replayed on the real task by
-    findings/D1.ops (engine outstation) and findings/D1_C01.ops (engine rawbytes) -/
+/-- `DbReach db0` (the closure used by `CounterUnderflow` and by the session frame `LeS`) is exactly:
+    the databases `run db0 ops` for a list `ops` of the seven database operations of the component
+    theorems (`add`, `update`, `select`, `write`, `unsol`, `clear`, `reset`) -/
+theorem db_reach_is_run (db0 db : Db) : DbReach db0 db ↔ ∃ ops : List DbProofs.DbOp, db = DbProofs.run db0 ops :=
+  dbReach_iff_run db0 db
+
+/-- **`no_counter_underflow`** (the `Count::subtract` site of `unwritten_classes`; D3 repaired): from
+    a database with exact counters — in particular a fresh one, and every database reachable from a
+    fresh one — no sequence of database operations reaches a state in which the checked subtraction
+    `total - written` fails -/
+theorem no_counter_underflow :
+    (∀ db0, DbProofs.CountersExact db0 → ¬ CounterUnderflow db0) ∧
+    (∀ evMax sel db, DbReach (Db.new evMax sel) db → DbProofs.CountersExact db ∧ ¬ CounterUnderflow db) :=
+  ⟨fun _ h => no_counterUnderflow h,
+   fun evMax sel _ h => ⟨dbReach_counters (DbProofs.new_counters evMax sel) h, no_counterUnderflow_of_fresh evMax sel h⟩⟩
+
+example : DbProofs.CountersExact (Db.new 3 none) := DbProofs.new_counters 3 none
+
+/-- every state of every trace from construction is dead (the task panicked: D1) or holds a database
+    with exact counters -/
+theorem reachable_db_counters_exact (cfg : OCfg) (evMax : Nat) (env : OEnv) (s : OState)
+    (hr : Outstation.Reachable cfg evMax env s) : s.mode = .dead ∨ DbProofs.CountersExact s.db :=
+  reachable_dead_or_counters hr
+
+/-- one step from ANY state whose database has exact counters panics only by D1 -/
+theorem outstation_step_no_panic_of_counters (env : OEnv) (s : OState) (i : OInput)
+    (hdb : DbProofs.CountersExact s.db) (hp : OOut.panic ∈ (Outstation.step env s i).2) :
+    ∃ data, ((∃ src dst, i = .rx src dst data) ∨ (∃ f, s.pending = some f ∧ f.data = data)) ∧
+        OperateEchoOverflows s.cfg.sol data :=
+  Proofs.NoPanicOutstation.outstation_step_no_panic_of_counters env s i hdb hp
+
+/-- **`outstation_step_no_panic_partial`**: on EVERY trace from construction (any configuration, any
+    event-buffer size, any input list) a step of the outstation session panics ONLY IF (D1) the
+    fragment being handled — the one just received, or one retained in `s.pending` — parses as an
+    OPERATE (function code 4) made of control headers only whose echo overflows the solicited buffer
+    (`cfg.sol - 4` octets after the response header).  Nothing else: the counter underflow of D3 is
+    repaired. -/
+theorem outstation_step_no_panic_partial (cfg : OCfg) (evMax : Nat) (env : OEnv) (s : OState)
+    (hr : Outstation.Reachable cfg evMax env s) (i : OInput)
+    (hp : OOut.panic ∈ (Outstation.step env s i).2) :
+    ∃ data, ((∃ src dst, i = .rx src dst data) ∨ (∃ f, s.pending = some f ∧ f.data = data)) ∧
+        OperateEchoOverflows s.cfg.sol data :=
+  outstation_reachable_no_panic_partial hr i hp
+
+/-- the hypotheses are satisfiable, and this is the D1 counterexample to the full statement: tx buffer
+    249, OPERATE of 62 x g41v2 with 16-bit indices (317 octets) against the freshly started session —
+    replayed on the real task by findings/D1.ops (engine outstation) and findings/D1_C01.ops (engine rawbytes) -/
 theorem outstation_step_no_panic_counterexample :
+    Outstation.Reachable { sol := 249 } 10 {} d1State ∧
     OOut.panic ∈ (Outstation.step {} d1State (.rx 1 1024 d1Data)).2 ∧ OperateEchoOverflows 249 d1Data :=
-  ⟨d1_panics, d1_example⟩
+  ⟨.start, d1_panics, d1_example⟩
 
 /-- **`outstation_dies_only_by_panic`**: `Mode.dead` is entered only together with the `panic` output -/
 theorem outstation_dies_only_by_panic (env : OEnv) (s : OState) (i : OInput) (hs : s.mode ≠ .dead)
@@ -542,21 +596,35 @@ example : d1State.mode ≠ .dead := fun h => by
   have : isDead d1State.mode = true := h ▸ rfl
   revert this; decide +kernel
 
-/-- **`outstation_no_panic_of_fits`**: no D3 database reachable and no D1 fragment at hand ⇒ no panic,
-    whatever the state and whatever the input -/
-theorem outstation_no_panic_of_fits (env : OEnv) (s : OState) (i : OInput)
-    (hdb : ∀ db, DbReach s.db db → db.unwrittenClasses ≠ none)
+/-- **`outstation_no_panic_of_fits`**: no D1 fragment at hand ⇒ no panic, whatever the reachable state
+    and whatever the input -/
+theorem outstation_no_panic_of_fits (cfg : OCfg) (evMax : Nat) (env : OEnv) (s : OState)
+    (hr : Outstation.Reachable cfg evMax env s) (i : OInput)
     (hfit : ∀ data, ((∃ src dst, i = .rx src dst data) ∨ (∃ f, s.pending = some f ∧ f.data = data)) →
       ¬ OperateEchoOverflows s.cfg.sol data) :
     OOut.panic ∉ (Outstation.step env s i).2 :=
-  Proofs.NoPanicOutstation.outstation_no_panic_of_fits env s i hdb hfit
+  outstation_reachable_no_panic_of_fits hr i hfit
 
-example (s : OState) (hpend : s.pending = none) (hdb : ∀ db, DbReach s.db db → db.unwrittenClasses ≠ none) :
+example (cfg : OCfg) (evMax : Nat) (s : OState) (hr : Outstation.Reachable cfg evMax {} s) (hpend : s.pending = none) :
     OOut.panic ∉ (Outstation.step {} s (.tick 5)).2 :=
-  outstation_no_panic_of_fits {} s (.tick 5) hdb (by
+  outstation_no_panic_of_fits cfg evMax {} s hr (.tick 5) (by
     rintro data (⟨src, dst, h⟩ | ⟨f, hf, -⟩)
     · cases h
     · rw [hpend] at hf; cases hf)
+
+/-- the former D3 counterexample, in the model with the real database: event buffer of one event per
+    type, a class-1 event transmitted unsolicited (Written), a class-2 event of the same type overflows
+    it out, then the 2-octet DELAY_MEASURE request `C1 17` — which used to panic in `get_response_iin` —
+    is answered: the state is reachable, no panic, the task lives, `unwritten_classes` reports class 2.
+    Regression case on the real task: harness/corpus/C01/rawbytes_D3.ops (engine rawbytes) -/
+theorem outstation_former_d3_witness_no_panic :
+    Outstation.Reachable { unsolicited := true } 1 {} d3State ∧
+    OOut.panic ∉ (Outstation.step {} d3State (.rx 1 1024 [0xC1, 0x17])).2 ∧
+    (Outstation.step {} d3State (.rx 1 1024 [0xC1, 0x17])).1.mode ≠ .dead ∧
+    d3State.db.unwrittenClasses = some (false, true, false) :=
+  ⟨d3State_reachable, not_mem_of_any_isPanic d3_no_longer_panics.1,
+   fun h => (by have := d3_no_longer_panics.2.1; rw [h] at this; cases this),
+   d3_no_longer_panics.2.2⟩
 
 /-- **`outstation_never_spins`**: `runPass` is one pass of `run_idle_state` per unit of fuel, invoked
     with `passFuel = 64`.  Unless the keep-alive period is configured as 0 (a timer that is due again
@@ -575,15 +643,6 @@ theorem runPass_is_pass (n : Nat) (a : Acc) : runPass (n + 1) a = pass (runPass 
 
 example : ((OState.init {} 10, []) : Acc).1.cfg.keepalive ≠ some 0 := by decide
 
-/-- the D3 counterexample to the full statement, in the model with the real database: event buffer
-    of one event per type, a class-1 event transmitted unsolicited (Written), a class-2 event of the
-    same type overflows it out, then the 2-octet DELAY_MEASURE request `C1 17` panics — replayed on
-    the real task by findings/D3_C01.ops (engine rawbytes) -/
-theorem outstation_step_no_panic_counterexample_d3 :
-    OOut.panic ∈ (Outstation.step {} d3State (.rx 1 1024 [0xC1, 0x17])).2 ∧
-    CounterUnderflow (Db.new 1 none) :=
-  ⟨d3_panics, d3_example⟩
-
 /- NOT PROVED: the analogous statement for the outer loop `settle 8` (`settle (n + 2) r = settle 2 r`);
    the argument (at most two re-dispatches: only the `newRequest` path of a solicited confirm wait
    retains the fragment) is written out at the end of Proofs/NoPanicOutstation.lean. -/
@@ -593,5 +652,6 @@ example := @link_reader_buffer_invariant
 example := @transport_no_panic
 example := @iter_no_panic
 example := @outstation_step_no_panic_partial
+example := @no_counter_underflow
 
 end Dnp3.Props.C01
